@@ -1,7 +1,7 @@
 (* C03 — subset grouping partitions observed proteins into maximal peptide-set groups.
    Statements only.  [m] is the ordered peptide -> proteins map (a dict: keys distinct); [prot_order m]
    are the proteins with at least one observed peptide; [peptides_of m p] is p's observed peptide set. *)
-From PGF Require Import Base.Prelude Model.ProteinGroups Model.Grouping Model.GroupingCheck Proofs.GroupingProofs Proofs.GroupingCheckProofs.
+From PGF Require Import Base.Prelude Model.ProteinGroups Model.Grouping Model.GroupingCheck Proofs.GroupingProofs Proofs.GroupingCheckProofs Proofs.PseudoGene.
 
 Section C03.
 Variable m : pmap.
@@ -72,7 +72,21 @@ Theorem C03_no_grouping_singletons : forall m,
 Proof. exact no_grouping_singletons. Qed.
 Print Assumptions C03_no_grouping_singletons.
 
-(* pseudo-gene grouping: the claim "the groups are exactly the connected components of the shares-a-peptide relation" is decided on
+(* pseudo-gene grouping, the ALGORITHM (merge every connected component of the leading proteins into its smallest member): for every
+   peptide-to-protein map the groups are a duplicate-free partition of the observed proteins without empty group in which two proteins
+   share a group exactly when a chain of proteins with a common peptide links them *)
+Theorem C03_pseudo_gene_groups_are_components : forall m, NoDup (map fst m) ->
+  NoDup (concat (pseudo_gene_grouping m)) /\
+  (forall p, In p (concat (pseudo_gene_grouping m)) <-> In p (prot_order m)) /\
+  (forall x y, In x (prot_order m) -> In y (prot_order m) -> (same_group (pseudo_gene_grouping m) x y <-> linked m x y)).
+Proof. exact pseudo_gene_groups_are_components. Qed.
+Print Assumptions C03_pseudo_gene_groups_are_components.
+
+Theorem C03_pseudo_gene_no_empty_group : forall m, NoDup (map fst m) -> forall g, In g (pseudo_gene_grouping m) -> g <> [].
+Proof. intros m Hm. exact (proj2 (proj2 (pseudo_gene_partition m Hm))). Qed.
+Print Assumptions C03_pseudo_gene_no_empty_group.
+
+(* pseudo-gene grouping: the claim "the groups are exactly the connected components of the shares-a-peptide relation" is ALSO decided on
    the IMPLEMENTATION's own groups by a boolean checker that the kernel evaluates in every pseudo-gene correspondence case
    (Harness/H03.v); the checker is sound: whenever it answers true the groups are a duplicate-free partition of the observed proteins
    in which two proteins share a group exactly when a chain of proteins with a common peptide links them *)
